@@ -1,6 +1,6 @@
 //! Suite "runacct" (C02): PushInterpreter::run on one copy of the state, and on a second copy an
-//! independent accounting written here: copy EXEC to CODE, then call step() one at a time with our own
-//! step counter and our own size comparison.
+//! independent accounting written here: copy EXEC to CODE (our own copy), then call step() one at a time with our own
+//! step counter and our own size comparison; the completing step on an empty EXEC stack must leave the state as it was.
 use crate::conv::{state_to_sx, sx_to_state};
 use crate::sx::Sx;
 use pushr::push::instructions::InstructionSet;
@@ -31,19 +31,26 @@ fn run(c: &Sx) -> Sx {
         let icache = is2.cache();
         let limit = b.configuration.eval_push_limit as i64;
         let cap = b.configuration.growth_cap as u128;
-        PushInterpreter::copy_to_code_stack(&mut b);
+        // our own copy of the program onto the CODE stack (order preserved), not the interpreter's
+        let n = b.exec_stack.size();
+        if let Some(items) = b.exec_stack.copy_vec(n) { b.code_stack.push_vec(items); }
         let mut executed: i64 = 0; // step() calls that did not report completion
+        let mut empty_step_changes = 0; // 1 when the completing step (EXEC empty) altered the state
         let o2;
         loop {
             if executed > limit { o2 = 1; break; }
             let before = b.size() as u128;
-            if PushInterpreter::step(&mut b, &mut is2, &icache) { o2 = 0; break; }
+            let snapshot = if b.exec_stack.size() == 0 { Some(state_to_sx(&b)) } else { None };
+            if PushInterpreter::step(&mut b, &mut is2, &icache) {
+                if let Some(s0) = snapshot { if s0 != state_to_sx(&b) { empty_step_changes = 1; } }
+                o2 = 0; break;
+            }
             executed += 1;
             if (b.size() as u128) > before + cap { o2 = 3; break; }
         }
         Some(Sx::L(vec![
             Sx::L(vec![Sx::Z(o), state_to_sx(&a)]),
-            Sx::L(vec![Sx::Z(o2), state_to_sx(&b), Sx::Z(executed as i128)]),
+            Sx::L(vec![Sx::Z(o2), state_to_sx(&b), Sx::Z(executed as i128), Sx::Z(empty_step_changes)]),
         ]))
     };
     go().unwrap_or_else(Sx::bad)
